@@ -89,6 +89,9 @@ def charset(draw, cfg, binary):
         if binary:
             return ("lit", draw(st.sampled_from(ALPHA)))
         return ("cls", draw(st.sampled_from("wWdDsSntr ")))
+    if binary and kind == "set" and draw(st.integers(0, 5)) == 0:
+        # every byte value spelled out (not the same thing as `.` for the code generator: 256 explicit values, no Else)
+        return ("set", (("r", 0x00, 0xff),), False)
     items = []
     for _ in range(draw(st.integers(1, 3))):
         ik = draw(st.sampled_from(["c", "c", "r", "k"]))
@@ -437,6 +440,11 @@ def body(draw, env, depth, n_min=1, n_max=None, need_consuming=True, first_must_
             for _ in range(draw(st.integers(1, 2))):
                 acts = [a for a in [draw(action(env, allow=("assign", "assignstr", "delete", "hook", "appendc", "break"), last_ok=False))
                                     for _ in range(draw(st.integers(1, 2)))] if a is not None]
+                if cfg.kinds.get("finish", 0) and draw(st.integers(0, 4)) == 0:
+                    # a branch that ends the parse (next to branches that break / append / just continue)
+                    a = draw(action(env, allow=("finish",), last_ok=False))
+                    if a is not None:
+                        acts.append(a)
                 if acts and draw(st.integers(0, 3)) == 0:
                     # nested action-only if (nested conditional actions on one transition)
                     k2 = draw(st.integers(0, len(acts) - 1))
@@ -446,7 +454,7 @@ def body(draw, env, depth, n_min=1, n_max=None, need_consuming=True, first_must_
             if branches:
                 eb = None
                 if draw(st.booleans()):
-                    a = draw(action(env, allow=("assign", "assignstr", "delete", "hook"), last_ok=False))
+                    a = draw(action(env, allow=("assign", "assignstr", "delete", "hook") + (("finish",) if cfg.kinds.get("finish", 0) else ()), last_ok=False))
                     eb = (a,) if a is not None else None
                 push(("if", tuple(branches), eb))
         elif k == "loop":
@@ -570,7 +578,12 @@ def loop_stmt(draw, env, depth, followed):
             return ("loop", name, (("match", m), ("assign", v, ("bin", "+", ("var", v), ("num", 1, "dec"))),
                                    ("if", ((("bin", draw(st.sampled_from(["==", ">="])), ("var", v), ("num", k, "dec")), brk),), None)))
         cond = draw(condition(env, last_ok=cfg.allow_last))
-        return ("loop", name, (("match", m), ("if", ((cond, (("break", None),)),), None)))
+        eb = None
+        if cfg.kinds.get("finish", 0) and draw(st.integers(0, 3)) == 0:
+            # leave the loop or end the parse
+            a = draw(action(env, allow=("finish",)))
+            eb = (a,) if a is not None else None
+        return ("loop", name, (("match", m), ("if", ((cond, (("break", None),)),), eb)))
     finally:
         env.loops.pop()
 
